@@ -14,7 +14,7 @@ Extraction "model.ml"
   Domains.ref_decode ISA.sem_ref Domains.charge_ref Domains.accesses
   Domains.dom_c01 Domains.dom_c02 Domains.dom_c03 Domains.dom_c04 Domains.dom_c05 Domains.dom_c06
   Domains.dom_c07a Domains.dom_c07b Domains.dom_c08 Domains.dom_c20 Domains.known_shal Domains.known_stc_predec
-  Domains.is_exc ISA.reg32 Domains.dom_entry Domains.ref_entry Domains.ref_step Domains.boundary_ref Domains.mes_ref Domains.is_mes_call Domains.dom_mes Domains.exec_dom Domains.data_ok
+  Domains.is_exc ISA.reg32 Domains.dom_entry Domains.ref_entry Domains.ref_step Domains.ref_run Domains.ref_run_init Domains.boundary_ref Domains.mes_ref Domains.is_mes_call Domains.dom_mes Domains.exec_dom Domains.data_ok
   PortSpec.pstep PortSpec.p_read PortSpec.p_out PortSpec.port0
   TimerSpec.states_ref TimerSpec.write_tcr_ref TimerSpec.side_ok TimerSpec.mkTmr
   Price.price_ref Price.settings_of_area Price.on_chip_ram Price.area_of Price.dom_c19
